@@ -169,7 +169,7 @@ def HDD(input: Union[str, list, tuple, np.ndarray, binary_sequence], M: int):
     else:
         raise TypeError("`input` must be of type (str, list, tuple, ndarray, binary_sequence)")
 
-    if not M & (M-1) == 0:
+    if M < 1 or M & (M-1) != 0:
         raise ValueError("`M` must be a power of 2.")
 
     if input.size % M != 0:
@@ -229,7 +229,7 @@ def SDD(input: electrical_signal, M: int) -> binary_sequence:
     """
     tic()
 
-    if not M & (M-1) == 0:
+    if M < 1 or M & (M-1) != 0:
         raise ValueError("`M` must be a power of 2.")
     
     if isinstance(input, electrical_signal):
@@ -288,7 +288,7 @@ def THRESHOLD_EST(eye_obj: eye, M: int):
     >>> eye_obj = eye({'mu0':0.1, 'mu1':1.1, 's0':0.1, 's1':0.1})
     >>> THRESHOLD_EST(eye_obj, M=4)
     """
-    if not M & (M-1) == 0:
+    if M < 1 or M & (M-1) != 0:
         raise ValueError("`M` must be a power of 2.")
     
     if not isinstance(eye_obj, eye):
@@ -381,7 +381,7 @@ def DSP(input: electrical_signal, M :int, decision: Literal['hard','soft']='hard
     if input.len() < gv.sps:
         raise ValueError("`input` must have at least `sps` samples.")
     
-    if not M & (M-1) == 0:
+    if M < 1 or M & (M-1) != 0:
         raise ValueError("`M` must be a power of 2.")
 
     x = input
@@ -483,7 +483,7 @@ def BER_analizer(mode: Literal['counter', 'estimator'], **kwargs):
         if eye_obj is None or M is None:
             raise KeyError("`eye_obj` and `M` are required arguments for `mode='estimator'`.")
 
-        if not M & (M-1) == 0:
+        if M < 1 or M & (M-1) != 0:
             raise ValueError("`M` must be a power of 2.")
 
         if decision.lower() not in ['hard', 'soft']:
@@ -560,7 +560,7 @@ def theory_BER(mu1: Union[float, ndarray], s0: Union[float, ndarray], s1: Union[
     3.074810247686141e-12
 
     """
-    if not M & (M-1) == 0:
+    if M < 1 or M & (M-1) != 0:
         raise ValueError("`M` must be a power of 2.")
 
     if decision == 'soft':
